@@ -310,6 +310,7 @@ def check_path(ex, st, steps, Ds, cover):
         elif nfor > 1:
             bad('timers-follow-policy', '%d minimum-wait timers armed for one wait (%s)' % (nfor, why))
 
+    wait_over = False
     for k, s in enumerate(steps):
         nm = s.name
         if nm in ('control-request', 'update_check_allowed', 'ping_omaha') and mode in ('idle', 'reboot') and timers is not None and last_timing is not None \
@@ -317,6 +318,7 @@ def check_path(ex, st, steps, Ds, cover):
             timers_complete('before ' + nm)
         if nm == 'compute_next_update_time':
             last_timing = s
+            wait_over = False
             timers = []
             # stored and announced
             nxt = steps[k + 1] if k + 1 < n else None
@@ -333,8 +335,8 @@ def check_path(ex, st, steps, Ds, cover):
                 thirty = s
             else:
                 timers.append(s)
-                if last_timing is None:
-                    bad('timers-follow-policy', 'a timer armed without asking the policy')
+                if last_timing is None or (wait_over and mode == 'idle'):
+                    bad('timers-follow-policy', 'a timer armed for a new wait without asking the policy for the timing again')
                 else:
                     tm = last_timing.info['timing']
                     if nm == 'wait_until':
@@ -390,6 +392,9 @@ def check_path(ex, st, steps, Ds, cover):
             pending_req = None
         elif nm == 'update_check_allowed':
             last_allowed = s
+            # this wait is over: whatever wait comes next must start by asking the policy for the timing again
+            # (also after a throttled check)
+            wait_over = True
             if mode != 'idle':
                 bad('check-needs-consent', 'policy asked about a check while one is in progress')
             # options: default for a timer wake-up, the request's options for a requested one
